@@ -266,12 +266,21 @@ Definition init_calls_static_data_last : bool :=
 Definition term_calls_static_data_first : bool :=
   match gen_platform_term_calls with c :: _ => String.eqb c "XMLInitializer::terminateStaticData" | [] => false end.
 
-(** every mutation site of the pool's grammar registry is dominated by the fLocked test (per site and per branch, see
-    translator dominated_by_flag), and the three mutators of the public interface are among the sites found *)
+(** every write of a field of the grammar pool (fXSModel, fXSModelIsValid, fGrammarRegistry and its mutators, fStringPool,
+    fSynchronizedStringPool, calls of the private createXSModel) is dominated by the fLocked test (per site and per
+    branch, see translator dominated_by_flag) or sits on the documented lock/unlock path (constructor, destructor,
+    lockPool, unlockPool, cleanUp, deserializeGrammars); the mutators of the public interface are among the sites found *)
 Definition pool_guards_ok : bool :=
   forallb (fun g => snd (snd g)) gen_pool_guards &&
   forallb (fun f => existsb (fun g => String.eqb (fst g) f) gen_pool_guards)
-          ["XMLGrammarPoolImpl::cacheGrammar"; "XMLGrammarPoolImpl::orphanGrammar"; "XMLGrammarPoolImpl::clear"].
+          ["XMLGrammarPoolImpl::cacheGrammar"; "XMLGrammarPoolImpl::orphanGrammar"; "XMLGrammarPoolImpl::clear";
+           "XMLGrammarPoolImpl::getXSModel"].
+Definition bad_pool_writes : list (string * string) :=
+  map (fun g => (fst g, fst (snd g))) (filter (fun g => negb (snd (snd g))) gen_pool_guards).
+
+(** RangeTokenMap::getRange publishes the lazily built complement with the complement flag (slot selection of the
+    functional model Model17.get_range); the lazy branch still exists only while complements are not all pre-built *)
+Definition getrange_publish_ok : bool := forallb (fun g => snd g) gen_getrange_publish.
 
 (** shared range tokens as the built library reports them right after Initialize: every token that exists has its bitmap
     built (a token whose map is built lazily on first match is shared state that Initialize should have built: racy);
@@ -292,4 +301,4 @@ Definition bad_range_tokens : list string :=
 
 Definition inventory_ok : bool :=
   all_classified && all_sites_ok && guarded_nonvacuous && init_term_mirror && init_calls_static_data_last &&
-  term_calls_static_data_first && pool_guards_ok && range_tokens_ok.
+  term_calls_static_data_first && pool_guards_ok && range_tokens_ok && getrange_publish_ok.
